@@ -1,7 +1,13 @@
 import DuneVerif.Common.Proto
 import DuneVerif.Model.C13
 /-! line-protocol driver for C13 (format: see harness/mpi_c13.cc)
-    `np=<P> num=<d|c|s|l> ord=<a|f> del=<m|r> [re=<0|s|d>] : <g>=<rank><o|v|c><k|d|a|n>,...;...`  -/
+    `np=<P> num=<d|c|s|l> ord=<a|f> del=<m|r> [re=<0|s|d>] [comm=<w|d|r0.r1...>] [glob=<i|l>] : <g>=<rank><o|v|c><k|d|a|n>,...;...`
+
+    `comm` names the MPI communicator the harness builds the remote indices on (MPI_COMM_WORLD, a duplicate, or the
+    world processes r0, r1, … in this order) and `glob` the C++ type of the global indices.  The model has neither
+    notion: processes are numbered as the communicator numbers them, processes outside it hold nothing, global
+    indices are integers.  The driver only validates the two tokens (holder ranks must be ranks of the
+    communicator) — that the real code gives the model's answer for every choice is what the comparison checks. -/
 open DV DV.C13
 
 structure Tok where
@@ -115,18 +121,41 @@ def run (np : Nat) (numKind : String) (re : String) (toks : List Tok) : String :
   " ".intercalate ((List.range np).map fun p =>
     "r" ++ toString p ++ "{" ++ a.getD p "" ++ " " ++ b.getD p "" ++ c.getD p "" ++ "}")
 
+/-- the optional header tokens, in this order: `re=`, `comm=`, `glob=`; result: (re, comm) -/
+def parseOpt? (np : Nat) (ts : List String) : Option (String × Option (List Nat)) :=
+  let (re, ts) : String × List String :=
+    match ts with
+    | t :: rest => if t = "re=0" then ("0", rest) else if t = "re=s" then ("s", rest) else if t = "re=d" then ("d", rest) else ("0", ts)
+    | [] => ("0", [])
+  let (comm?, ts) : Option (Option (List Nat)) × List String :=
+    match ts with
+    | t :: rest =>
+      if t = "comm=w" ∨ t = "comm=d" then (some none, rest)
+      else if t.startsWith "comm=" then
+        let parts := (t.drop 5).toString.splitOn "."
+        match parts.mapM (fun m => if m.length ≤ 3 ∧ m.length ≥ 1 ∧ m.toList.all Char.isDigit then m.toNat? else none) with
+        | some ms => if ms.Nodup ∧ ms.all (· < np) then (some (some ms), rest) else (none, rest)
+        | none => (none, rest)
+      else (some none, ts)
+    | [] => (some none, [])
+  match comm?, ts with
+  | some comm, [] => some (re, comm)
+  | some comm, [t] => if t = "glob=i" ∨ t = "glob=l" then some (re, comm) else none
+  | _, _ => none
+
 def handle (line : String) : String :=
   match line.splitOn " : " with
   | [head, body] =>
     let hs := tokens head
-    let (hs4, re?) : List String × Option String :=
+    let np0 : Nat := match hs with
+      | n :: _ => if n.startsWith "np=" then ((n.drop 3).toString.toNat?).getD 0 else 0
+      | [] => 0
+    let (hs4, opt?) : List String × Option (String × Option (List Nat)) :=
       match hs with
-      | [n, num, ord, del] => ([n, num, ord, del], some "0")
-      | [n, num, ord, del, re] =>
-        ([n, num, ord, del], if re = "re=0" then some "0" else if re = "re=s" then some "s" else if re = "re=d" then some "d" else none)
+      | n :: num :: ord :: del :: rest => ([n, num, ord, del], parseOpt? np0 rest)
       | _ => ([], none)
-    match hs4, re? with
-    | [n, num, ord, del], some re =>
+    match hs4, opt? with
+    | [n, num, ord, del], some (re, comm) =>
       if !(n.startsWith "np=") then "bad-op" else
       match (n.drop 3).toString.toNat? with
       | none => "bad-op"
@@ -135,7 +164,9 @@ def handle (line : String) : String :=
         if !(num = "num=d" ∨ num = "num=c" ∨ num = "num=s" ∨ num = "num=l") ∨ !(ord = "ord=a" ∨ ord = "ord=f") ∨ !(del = "del=m" ∨ del = "del=r") then "bad-op" else
         if ord = "ord=f" ∧ num = "num=d" then "bad-op" else
         let segs := (body.splitOn ";").map (fun s => String.ofList (s.toList.filter (· ≠ ' '))) |>.filter (· ≠ "")
-        match segs.mapM (parseSeg? np) with
+        -- holders are ranks of the communicator
+        let active := match comm with | some ms => ms.length | none => np
+        match segs.mapM (parseSeg? active) with
         | none => "bad-op"
         | some tss =>
           if !((tss.filterMap fun ts => ts.head?.map (·.g)).Nodup) then "bad-op" else
